@@ -152,6 +152,7 @@ func newConn(now time.Time, side connSide, cids newServerConnIDs, peerHostname s
 		ackDelayExponent:               ackDelayExponent,
 		maxUDPPayloadSize:              maxUDPPayloadSize,
 		maxAckDelay:                    maxAckDelay,
+		maxIdleTimeout:                 config.maxIdleTimeout(),
 		disableActiveMigration:         true,
 		initialMaxData:                 config.maxConnReadBufferSize(),
 		initialMaxStreamDataBidiLocal:  config.maxStreamReadBufferSize(),
